@@ -85,6 +85,8 @@ type SlidingWindow struct {
 	firstWindowStartTime time.Time
 	// watermark for event time processing (only used for EventTime)
 	watermark *Watermark
+	// slotAdvanced is set once the event-time trigger has moved currentSlot forward
+	slotAdvanced bool
 	// triggeredWindows stores windows that have been triggered but are still open for late data (for EventTime with allowedLateness)
 	triggeredWindows map[string]*triggeredWindowInfo // key: window end time string
 	// Performance statistics
@@ -224,6 +226,17 @@ func (sw *SlidingWindow) Add(data any) {
 		}
 		sw.initialized = true
 	}
+	// An on-time event (not behind the watermark) that precedes the current window can
+	// only precede the very first window, which was aligned to the first event seen: no
+	// window has fired yet at or after its timestamp. Move the current window back so the
+	// event is reported in its own window instead of being buffered forever.
+	// (Once a window has fired or been skipped, an on-time event before the current window
+	// lies in a gap between windows (slide > size) and belongs to none.)
+	if timeChar == types.EventTime && !sw.slotAdvanced && sw.currentSlot != nil && eventTime.Before(*sw.currentSlot.Start) &&
+		(sw.watermark == nil || !sw.watermark.IsEventTimeLate(eventTime)) {
+		sw.currentSlot = sw.createSlotFromStart(alignWindowStart(eventTime, sw.slide))
+	}
+
 	row := types.Row{
 		Data:      data,
 		Timestamp: eventTime,
@@ -467,6 +480,7 @@ func (sw *SlidingWindow) checkAndTriggerWindows(watermarkTime time.Time) {
 
 		// Move to next window immediately
 		sw.currentSlot = sw.NextSlot()
+		sw.slotAdvanced = true
 		if sw.currentSlot != nil {
 			debugLogSliding("checkAndTriggerWindows: moved to next window [%v, %v)",
 				sw.currentSlot.Start.UnixMilli(), sw.currentSlot.End.UnixMilli())
@@ -794,6 +808,7 @@ func (sw *SlidingWindow) Reset() {
 	sw.data = nil
 	sw.currentSlot = nil
 	sw.initialized = false
+	sw.slotAdvanced = false
 	sw.initChan = make(chan struct{})
 	sw.firstWindowStartTime = time.Time{}
 	sw.triggeredWindows = make(map[string]*triggeredWindowInfo)
